@@ -13,7 +13,7 @@ import (
 
 type k4Handler struct{}
 
-func (k4Handler) NotifySessReport(report.SessReport)       {}
+func (k4Handler) NotifySessReport(report.SessReport)      {}
 func (k4Handler) PopBufPkt(uint64, uint16) ([]byte, bool) { return nil, false }
 
 // K4: a URR that gains the periodic trigger by Update URR must be queried periodically.
